@@ -600,3 +600,26 @@ Proof.
   pose proof (validate_skill_ok c Hv) as Hsk. rewrite Forall_forall in Hsk. unfold cfg_ok in Hc. rewrite Forall_forall in Hc.
   split; [apply Hc; exact Hin|apply Hsk; exact Hin].
 Qed.
+
+(* boolean versions of the input hypotheses (for the non-vacuity examples) *)
+Definition file_okb (f : file) : bool :=
+  negb (match f_rel f with [] => true | _ => false end) && forallb name_okb (f_rel f).
+Definition module_okb (m : module) : bool := forallb file_okb (m_files m) && forallb is_hex_lower (m_h10 m).
+Definition cfg_okb (c : cfg) : bool := forallb module_okb (c_modules c).
+
+Lemma cfg_okb_ok c : cfg_okb c = true -> cfg_ok c.
+Proof.
+  unfold cfg_okb, cfg_ok. rewrite forallb_forall. intros H. apply Forall_forall. intros m Hm.
+  specialize (H m Hm). unfold module_okb in H. apply andb_true_iff in H as [H1 H2]. split; [|exact H2].
+  rewrite forallb_forall in H1. apply Forall_forall. intros f Hf. specialize (H1 f Hf).
+  unfold file_okb in H1. apply andb_true_iff in H1 as [Ha Hb]. split.
+  - destruct (f_rel f); [discriminate|discriminate].
+  - rewrite forallb_forall in Hb. apply Forall_forall. exact Hb.
+Qed.
+
+Lemma load_render_ok c e prof filt D R : load_render c e prof filt = Ok (D, R) ->
+  validate_manifest c = None /\ render c e prof filt = Ok (D, R).
+Proof.
+  unfold load_render, plan_desired. destruct (validate_manifest c); [discriminate|].
+  destruct (selected_targets c filt); [|discriminate]. intros H. split; [reflexivity|exact H].
+Qed.
